@@ -317,6 +317,48 @@ static std::set<int> open_fds() {
     return r;
 }
 
+// offsets at which the blobs of a PBF file end (framing only: 4-byte length, BlobHeader with datasize in field 3, Blob)
+static std::vector<long> pbf_blob_ends(const std::string& f) {
+    std::vector<long> ends;
+    size_t p = 0;
+    while (p + 4 <= f.size()) {
+        const size_t hl = (static_cast<size_t>(static_cast<unsigned char>(f[p])) << 24) | (static_cast<size_t>(static_cast<unsigned char>(f[p + 1])) << 16) |
+                          (static_cast<size_t>(static_cast<unsigned char>(f[p + 2])) << 8) | static_cast<size_t>(static_cast<unsigned char>(f[p + 3]));
+        p += 4;
+        if (hl > f.size() - p) break;
+        size_t q = p, end = p + hl, datasize = 0;
+        auto varint = [&](uint64_t& v) {
+            v = 0;
+            for (int sh = 0; q < end && sh < 64; sh += 7) {
+                const unsigned char c = static_cast<unsigned char>(f[q++]);
+                v |= static_cast<uint64_t>(c & 0x7f) << sh;
+                if (!(c & 0x80)) return true;
+            }
+            return false;
+        };
+        bool ok = true;
+        while (q < end && ok) {
+            uint64_t key = 0, v = 0;
+            ok = varint(key);
+            if (!ok) break;
+            if ((key & 7) == 0) {
+                ok = varint(v);
+                if ((key >> 3) == 3) datasize = static_cast<size_t>(v);
+            } else if ((key & 7) == 2) {
+                ok = varint(v) && v <= end - q;
+                q += static_cast<size_t>(v);
+            } else {
+                ok = false;
+            }
+        }
+        p = end;
+        if (!ok || datasize > f.size() - p) break;
+        p += datasize;
+        ends.push_back(static_cast<long>(p));
+    }
+    return ends;
+}
+
 static void prop_close_stops_reading(Src& s, int forced_fmt = -1) {
     const int fmt = forced_fmt >= 0 ? forced_fmt : static_cast<int>(s.draw(4));
     // a file that takes a while to parse: many objects, so that the pipeline is still busy when the consumer closes the Reader
@@ -356,7 +398,23 @@ static void prop_close_stops_reading(Src& s, int forced_fmt = -1) {
     ::unlink(path.c_str());
     if (std::getenv("VERIF_DUMP")) std::fprintf(stderr, "DUMP fmt=%d size=%zu pos %ld %ld %ld | %s\n", fmt, m.bytes.size(), pos_at_close, pos_later, pos_end, what.c_str());
     // pos -1: the descriptor is already closed (nothing can be read any more)
-    const bool moved = (pos_at_close >= 0 && pos_later >= 0 && pos_later != pos_at_close) || (pos_later >= 0 && pos_end >= 0 && pos_end != pos_later);
+    bool moved = (pos_at_close >= 0 && pos_later >= 0 && pos_later != pos_at_close) || (pos_later >= 0 && pos_end >= 0 && pos_end != pos_later);
+    if (moved && fmt == 0 && pos_at_close >= 0) {
+        // The PBF parser reads the file in its own thread, which close() does not wait for: the blob whose read was under way when
+        // close() returned (or had just been decided on) may be completed. Nothing beyond the end of that blob may be read.
+        long limit = static_cast<long>(m.bytes.size());
+        for (long e : pbf_blob_ends(m.bytes)) {
+            if (e > pos_at_close) {
+                limit = e;
+                break;
+            }
+        }
+        const long last = pos_end >= 0 ? pos_end : pos_later;
+        if (last <= limit && (pos_later < 0 || pos_later <= limit)) {
+            moved = false;
+            vp::count("observed_blob_read_in_flight_completed_after_close");
+        }
+    }
     VP_CHECK(!moved, "read-after-close", "the input file was still being read after close() had returned: file offset " << pos_at_close << " when close() returned, " << pos_later << " 3 ms later, " << pos_end << " 6 ms later (file size " << m.bytes.size() << ") | " << what);
     vp::count("close_stops_reading_cases");
     if (pos_at_close >= 0 && static_cast<size_t>(pos_at_close) < m.bytes.size()) vp::count("closed_before_the_file_was_read_completely");
